@@ -88,7 +88,9 @@ class Addr:
         """
         callback done via callLater
         """
-        del self.map.addr[self.name]
+        # the mapping is stored under the name and under the address
+        for key in [k for k, v in self.map.addr.items() if v is self]:
+            del self.map.addr[key]
         self.map.notify("addrmap_expired", *[self.name], **{})
 
 
